@@ -15,7 +15,7 @@ CHECKS = {
          "C02_timing_independent / C02_final_at_return / C02_cancel_exactly_dependants / C02_error_reported for all acyclic configurations, outcome assignments and interleavings. Tied to the code by the same accepted runs, the fixed-point monitor on observed final statuses and comparison of all explored completion orders of one configuration.",
          SCHED_NOTE, "DESIGN.md section 6 C02", "sched"),
  "C03": ("Coq proof: invariants (no double start, settled on return, eligible ran exactly once) and a progress theorem (one full polling pass strictly shrinks the Waiting set on acyclic well-formed graphs) over the scheduler LTS; correspondence as C01 plus injected Cancel / condition errors",
-         "Safety parts hold for all executions; termination is proved as progress + enabledness lemmas (every fair run returns), the wall-clock return is observed by the harness (Schedule must return within a bound in every explored run, cancelled runs included).",
+         "Safety parts hold for all executions; termination is proved as C03_terminates_within_rounds (on an acyclic configuration without dangling dependencies at most |c| fair rounds exhaust the Waiting stages and the exit is enabled) plus the enabledness lemmas; the wall-clock return is observed by the harness (Schedule must return within a bound in every explored run, cancelled runs included).",
          SCHED_NOTE + " Fairness of the Go scheduler and termination of commands are hypotheses of the progress argument.", "DESIGN.md section 6 C03", "sched"),
  "C04": ("Coq proof: eligibility is stable under every event, so any stretch of the run containing a stage's visit starts it (C04_eligible_gets_started, C04_in_flight_together); observed in-flight sets at every quiescent point are compared with the model's eligible closure in Coq",
          "For all configurations and interleavings: an eligible stage is started by the next pass whatever else happens, and a pass without completions puts all eligible stages in flight together. Tied to the code by checking, at every quiescent point of every explored run, that no eligible stage is unstarted (the controlled Runner releases nobody meanwhile = the rendezvous pipeline).",
@@ -73,11 +73,11 @@ CHECKS = {
          "Trusted: Coq kernel; transcription of Loader.load/loadDir (imports set, path.Join/Clean on segment lists); mergo on non-conflicting maps = concatenation; yaml.v2, filepath.Glob order, os.Stat; URL imports not modelled; python driver + binary. No axioms.",
          "DESIGN.md section 6 C17", "cli"),
  "C18": ("Coq proof: accepted <-> well-formed (references to tasks/pipelines, depends_on within the pipeline, watcher tasks, unique stage names, acyclic dependencies via the C05 graph theorem, acyclic inclusion) for all definitions, and - composed with the scheduler LTS - no execution of an accepted pipeline reaches the `unknown task` abort; accept/reject of the real binary on generated configurations with exactly one reference broken at every position compared with the model and with the by-construction oracle; every pipeline of accepted configurations run and drawn under a time limit",
-         "C18_accepted_iff_well_formed / C18_run_never_aborts / C18_inclusion_acyclic for all definitions and all scheduler executions. Tied to the code by ~40 (thorough 150) generated configurations x every single breakage of 8 kinds at every position + the repaired originals.",
+         "C18_accepted_iff_well_formed / C18_run_never_aborts / C18_inclusion_acyclic / C18_accepted_pipelines_meet_scheduler_hypotheses (hence C02 timing independence and C03 progress for every accepted pipeline, no hypothesis left on the graph) for all definitions and all scheduler executions. Tied to the code by ~40 (thorough 150) generated configurations x every single breakage of 8 kinds at every position + the repaired originals.",
          "Trusted: Coq kernel; reduction of buildFromDefinition/buildPipeline/buildWatcher to names and references; Model/Graph.v (C05) for both cycle checks; to_config into Model/Sched.v; python driver + binary. No axioms.",
          "DESIGN.md section 6 C18", "cli"),
  "C19": ("Coq proof (partial): chunking-invariance of the prefixed writer (for every stream and every splitting into Write calls that does not cut an escape sequence, for every line-local stripper), whole-line shape of every sink write, projection theorem for arbitrary interleavings of concurrent writers, raw identity, cockpit call-sequence safety; sink writes of the real decorators (exhaustive small streams x all splits, long random streams, 1..8 concurrent writers) compared with the model and monitored in Coq; bufio.ScanLines and Go's regexp validated against the model's scanner/matcher; every task outcome under the three formats in child processes",
-         "PARTIAL: C19_prefixed_faithful / C19_prefixed_whole_lines / C19_interleaving / C19_raw_identity / C19_cockpit_no_crash are proved for all streams, chunkings and interleavings; the full statement is refuted for chunkings that cut an ANSI sequence (C19_refuted_ansi_straddle = known finding K1). Atomicity of a sink Write, spinner timing/lock order and format-independence of results are observed only.",
+         "PARTIAL: C19_prefixed_faithful / C19_prefixed_whole_lines / C19_interleaving / C19_raw_identity / C19_cockpit_no_crash / C19_cockpit_no_deadlock (lock-order discipline, any number of threads) are proved for all streams, chunkings and interleavings; the full statement is refuted for chunkings that cut an ANSI sequence (C19_refuted_ansi_straddle = known finding K1). Atomicity of a sink Write, spinner timing/lock order and format-independence of results are observed only.",
          "Trusted: Coq kernel; transcription of prefixed.go/raw.go/cockpit.go call structure; Model/Regex.v used for predictions and the K1 class only (validated against Go regexp each run); Go engines output/taskrun-child, python driver. No axioms.",
          "DESIGN.md section 6 C19", "output+taskrun-child"),
  "C20": ("Coq proof (partial): the executable glob matcher decides the relational glob semantics (literal segments, *, ?, ** as doublestar reads it) for all patterns and paths; selection = include-and-not-exclude; default = all event types; the event loop law (initial run, then one run per delivered subscribed event with its name and path, compositional over histories of any length); registered paths and task runs of the real `taskctl watch` with real inotify compared with the model in Coq; doublestar.Glob/PathMatch validated against the matcher",
